@@ -80,10 +80,19 @@ def extract(config='pinned', include_root=None, tu=None):
     tmp = out + '.tmp.%d' % os.getpid()
     cmd = [TOOL, '--root=' + include_root, '--out=' + tmp, tu, '--'] + flags + ['-resource-dir', resource_dir()]
     p = subprocess.run(cmd, stdout=subprocess.PIPE, stderr=subprocess.STDOUT, text=True)
+    for _attempt in range(2):
+        # under heavy load of the sandbox (many concurrent regression runs) the extractor was seen to die without a
+        # diagnostic; a tree that really does not parse fails again, with its diagnostics
+        if p.returncode == 0 and os.path.exists(tmp):
+            break
+        if 'error:' in (p.stdout or ''):
+            break
+        time.sleep(2 + 3 * _attempt)
+        p = subprocess.run(cmd, stdout=subprocess.PIPE, stderr=subprocess.STDOUT, text=True)
     if p.returncode != 0 or not os.path.exists(tmp):
         if os.path.exists(tmp):
             os.unlink(tmp)
-        raise AnalysisBroken('fact extraction failed (the tree does not parse with the pinned flags?):\n' +
+        raise AnalysisBroken('fact extraction failed (the tree does not parse with the pinned flags?) rc=%s:\n' % p.returncode +
                              p.stdout[-3000:])
     os.replace(tmp, out)
     # keep the cache small: drop fact bases older than a day that are not this one
